@@ -14,7 +14,7 @@ from . import values
 from .values import enc, outcome
 
 
-def run_pair(lib, op, a, b, mode):
+def run_pair(lib, op, a, b, mode, follow=None):
     env = F.empty_env()
     if mode == 'var':
         env['vars'] = {'va': a, 'vb': b}
@@ -26,8 +26,17 @@ def run_pair(lib, op, a, b, mode):
     h = F.Harnessed(lib, env)
     o = h.parse(F.render(ast))
     o2 = h.parse(F.render(ast2))
-    return {'op': op, 'ast': ast, 'env': env, 'out': o['out'], 'out2': o2['out'], 'formula': F.render(ast),
-            'in': {'op': op, 'a': a, 'b': b, 'mode': mode}}
+    res = {'op': op, 'ast': ast, 'env': env, 'out': o['out'], 'out2': o2['out'], 'formula': F.render(ast),
+           'in': {'op': op, 'a': a, 'b': b, 'mode': mode}}
+    if mode == 'var' and 'arr' in (a['t'], b['t']) and follow is not None:
+        # the same operand objects meet another partner afterwards: the host's arrays are still what it registered
+        for name in ('va', 'vb'):
+            fa, fa2 = F.binop('+', F.var(name), F.num('1')), F.binop('+', F.num('1'), F.var(name))
+            q, q2 = h.parse(F.render(fa)), h.parse(F.render(fa2))
+            follow.append({'op': '+', 'ast': fa, 'env': env, 'out': q['out'], 'out2': q2['out'], 'formula': F.render(fa),
+                           'in': {'op': '+', 'a': a if name == 'va' else b, 'b': enc(1), 'mode': 'var',
+                                  'after': F.render(ast), 'pair': {'op': op, 'a': a, 'b': b}, 'which': name}})
+    return res
 
 
 def rand_scalar(rng):
@@ -63,6 +72,61 @@ def rand_operand(rng):
     return rand_scalar(rng)
 
 
+def signed(n):
+    return {'neg': n < 0, 'ds': [ord(c) for c in str(abs(n))]}
+
+
+def big_out(rec):
+    v = rec['result']
+    if rec['error'] is None and isinstance(v, int) and not isinstance(v, bool):
+        return dict(signed(v), int=True)
+    if rec['error'] is None and isinstance(v, float) and v == int(v) and abs(v) < 2 ** 53:
+        return dict(signed(int(v)), int=True)      # a whole number held as a float denotes that integer
+    return {'int': False, 'neg': False, 'ds': [48], 'repr': repr(v)[:60], 'err': str(rec['error'])}
+
+
+def run_big(lib, op, a, b, a_text, b_text, mode):
+    """a op b on integers a double cannot hold, each given as a number or as text spelling it"""
+    p = lib.Parser()
+    va = str(a) if a_text else a
+    vb = str(b) if b_text else b
+    if mode == 'var':
+        p.set_variable('va', va)
+        p.set_variable('vb', vb)
+        fa, fb = 'va', 'vb'
+    elif mode == 'cell':
+        p.on('callCellValue', lambda c, s: s(va if c.label == 'A1' else vb))
+        fa, fb = 'A1', 'B2'
+    else:       # written in the formula
+        fa = '"%d"' % a if a_text else ('%d' % a if a >= 0 else '(0-%d)' % -a)
+        fb = '"%d"' % b if b_text else ('%d' % b if b >= 0 else '(0-%d)' % -b)
+    o = {'kind': 'big', 'op': op, 'a': signed(a), 'in': {'op': op, 'a': str(a), 'b': str(b), 'a_text': a_text, 'b_text': b_text, 'mode': mode}}
+    if op == '*':
+        o['k'] = b
+        o['b'] = signed(0)
+    else:
+        o['k'] = 0
+        o['b'] = signed(b)
+    o['formula'] = fa + op + fb
+    o['out'] = big_out(p.parse(fa + op + fb))
+    o['out2'] = big_out(p.parse(fb + op + fa))
+    return o
+
+
+def big_cases(rng, n):
+    out = []
+    for _ in range(n):
+        a = rng.choice([2 ** 53 + 1, 10 ** 16 + 1, 10 ** 17 + 7, rng.randint(2 ** 53, 10 ** 30), rng.randint(10 ** 15, 10 ** 19)])
+        a = a if rng.random() < 0.7 else -a
+        op = rng.choice(['+', '-', '+', '-', '*'])
+        if op == '*':
+            b = rng.choice([1, 2, 3, 7, 10, -1, -5, 101, 9999])
+        else:
+            b = rng.choice([0, 1, -1, 2, a - 1, -(a - 1), a + 1, -a, rng.randint(-10 ** 18, 10 ** 18), 2 ** 53, rng.randint(1, 10 ** 6)])
+        out.append((op, a, b, rng.random() < 0.6, op != '*' and rng.random() < 0.4, rng.choice(['var', 'cell', 'lit'])))
+    return out
+
+
 def main(tier, replay=None):
     run = core.Run('C06', tier, keep_replays=bool(replay))
     values.TOL[0] = 1e-12     # cancellation: the error of a difference is relative to the operands, not the result
@@ -80,7 +144,18 @@ def main(tier, replay=None):
                        '& is exercised on text, integers and blanks']
     if replay:
         c = json.load(open(replay))['case']['in']
-        o = run_pair(lib, c['op'], c['a'], c['b'], c['mode'])
+        if 'a_text' in c:
+            o = run_big(lib, c['op'], int(c['a']), int(c['b']), c['a_text'], c['b_text'], c['mode'])
+            o['id'] = 1
+            v = core.validate_obs(run, 'Trace_Big', [o], 'replay')
+            core.tally(run, [o], v, 'c06-big')
+            return run.finish()
+        if 'pair' in c:
+            fl = []
+            run_pair(lib, c['pair']['op'], c['pair']['a'], c['pair']['b'], 'var', fl)
+            o = [x for x in fl if x['in']['which'] == c['which']][0]
+        else:
+            o = run_pair(lib, c['op'], c['a'], c['b'], c['mode'])
         o['id'] = 1
         v = core.validate_obs(run, 'Trace_C06', [o], 'replay', consts)
         core.tally(run, [o], v, 'c06')
@@ -93,12 +168,15 @@ def main(tier, replay=None):
     run.extra['tlc_cases'] = len(cases)
     rng = random.Random(run.seed)
     obs = []
+    follow = []
     for c in cases:
         for mode in ('var', 'cell'):
-            obs.append(run_pair(lib, c['op'], c['a'], c['b'], mode))
+            obs.append(run_pair(lib, c['op'], c['a'], c['b'], mode, follow))
     for _ in range(5000 if quick else 120000):
         obs.append(run_pair(lib, rng.choice(['+', '-', '*', '/', '&', '+', '*']), rand_operand(rng), rand_operand(rng),
-                            rng.choice(['var', 'cell'])))
+                            rng.choice(['var', 'cell']), follow))
+    run.extra['follow_up_observations_on_the_same_host_arrays'] = len(follow)
+    obs += follow
     # the recorded finding's witness and its mirror image
     w = ({'t': 'arr', 'a': [{'t': 'arr', 'a': [{'t': 'blank'}]}]}, {'t': 'arr', 'a': [enc('qq#'), {'t': 'blank'}, {'t': 'blank'}]})
     for op in ('+', '*'):
@@ -111,6 +189,13 @@ def main(tier, replay=None):
         part = obs[k:k + CH]
         v = core.validate_obs(run, 'Trace_C06', part, 'p%d' % (k // CH), consts)
         core.tally(run, part, v, 'c06', nontrivial=lambda o: o['in']['a']['t'] != o['in']['b']['t'] or o['in']['a']['t'] == 'arr')
+    # integers no double can hold, as numbers and as text: exact sums, differences and small multiples (BigNat)
+    big = [run_big(lib, *c) for c in big_cases(rng, 600 if quick else 20000)]
+    for n, o in enumerate(big, 1):
+        o['id'] = n
+    v = core.validate_obs(run, 'Trace_Big', big, 'big')
+    core.tally(run, big, v, 'c06-big')
+    run.extra['big_integer_observations'] = len(big)
     run.exhaustive = True
     run.samples = [{'in': o['in'], 'out': o['out']['res'], 'err': o['out']['err']} for o in (obs[17], obs[-1])]
     return run.finish()
